@@ -381,13 +381,20 @@ func (ps *Points) Collapse() {
 	pts := make(map[string]Point)
 
 	for _, p := range *ps {
-		pA, OK := pts[p.Type+p.Key]
+		// an empty key means key "0"; separate type and key so that
+		// ("ab", "") and ("a", "b") are different points
+		key := p.Key
+		if key == "" {
+			key = "0"
+		}
+		id := p.Type + "\x00" + key
+		pA, OK := pts[id]
 		if OK {
 			if pA.Time.Before(p.Time) || pA.Time.Equal(p.Time) {
-				pts[p.Type+p.Key] = p
+				pts[id] = p
 			}
 		} else {
-			pts[p.Type+p.Key] = p
+			pts[id] = p
 		}
 	}
 
